@@ -2,7 +2,7 @@
    for every tree the pipeline parses, provided the supplied file names contain no blank (a renamed macro temporary
    carries the name of its file); and without any condition the names are never the generator's own register names. *)
 From Theo Require Import Base Regex Tokens Errors Lexer Scan MacroExtract Grammar LR MacroApply Parser VMModel GenModel Compile
-                         RefSem C01Statements C01Stages Gen_Lexer Gen_Consts.
+                         RefSem RefSemChk VMSpec C01Statements C01Stages C01Stages3 C01Stages4 Gen_Lexer Gen_Consts.
 Local Open Scope Z_scope.
 
 Fixpoint has_prefix (p s : str) : bool :=
@@ -34,4 +34,28 @@ Definition C01_pipeline_safe_names_stmt : Prop :=
 Definition C01_pipeline_lexable_stmt : Prop :=
   forall files main p root,
     Forall (fun kv => lexable (fst kv) = true) files ->
+    parse files main = Ok p -> pr_ok p = true -> pr_root p = Some root -> lexable_names root = true.
+
+(* without pr_ok the statement is false: after a syntax error a NAME node can carry the text of any token, e.g. `!= 0`
+   (the file map [("m", "GOTO != 0")]) *)
+Definition C01_pipeline_lexable_unguarded_stmt : Prop :=
+  forall files main p root,
+    Forall (fun kv => lexable (fst kv) = true) files ->
     parse files main = Ok p -> pr_root p = Some root -> lexable_names root = true.
+Definition C01_pipeline_lexable_needs_ok_stmt : Prop := ~ C01_pipeline_lexable_unguarded_stmt.
+
+(* C01 from source text with conditions on the INPUT only where possible: blank-free file names instead of blank-free
+   identifiers.  What remains is the layout of the expanded program (canonical4) and the definedness of the
+   flattening, which C04_static gives for every successful compilation. *)
+Definition C01_source_stmt : Prop :=
+  forall files main c p root rs,
+    Forall (fun kv => lexable (fst kv) = true) files ->
+    compile files main = Ok c -> cr_ok c = true ->
+    parse files main = Ok p -> pr_root p = Some root ->
+    canonical4 root = true ->
+    abstract_source (Some root) = Some rs ->
+    (forall fuel rviews steps trace, run_ref_chk fuel rs = OStop rviews steps trace ->
+       exists k s vmviews,
+         vm_run k (init (cr_prog c)) = Ok s /\ isDone s = Ok true /\
+         views s = Ok vmviews /\ Forall2 view_agrees vmviews rviews /\ (steps <= k)%nat) /\
+    (forall n s, run_ref_chk n rs = OFuel -> vm_run n (init (cr_prog c)) = Ok s -> isDone s = Ok false).
